@@ -11,7 +11,7 @@ META = dict(
 
 
 def run(ctx):
-    n = 80 if ctx.tier == "quick" else 1500
+    n = 80 if ctx.tier == "quick" else 3000
     fams = [("gen", "gen.p1", n), ("gen", "gen.p2", n), ("gen", "gen.p2b1", n), ("gen", "gen.idem1", n),
             lambda: pc.family_faults(False, ctx.seed), lambda: pc.family_faults(True, ctx.seed),
             lambda: pc.family_gates(False), lambda: pc.family_gates(True), lambda: pc.family_gates_metafail(False), pc.family_sibling_syn, pc.family_level_jump, lambda: pc.family_resubmit(False), pc.family_retry0, lambda: pc.family_overflow(False), lambda: pc.family_overflow(True)]
